@@ -48,7 +48,7 @@ func (c10) Assumptions() []string {
 	return []string{
 		"a document written alone into its own file is 'the document run separately'; for an explicit empty / comment-only document that file is `---\\n` / `---\\n# c\\n`",
 		"a file holding only comment lines counts as one (null) document, a zero-byte file as none (yq's convention, used as bookkeeping)",
-		"expressions are document-local and deterministic: no document_index/file_index/filename/line/column, env, load, now, shuffle, split_doc in O1/O2/O4/O5",
+		"expressions are document-local and deterministic: no document_index/file_index/filename/line/column, env, now, shuffle, split_doc in O1/O2/O4/O5 (load only of one constant side file)",
 		"O2 keeps comments where yaml.v3 attaches them unambiguously: whole-line comments directly above/below a document body, never separated from it by blank lines; first document of a file is never an explicit empty/comment-only one (O3 covers that shape)",
 		"file names avoid extensions that select another input format (.json .xml .csv .toml ...); all runs use default flags",
 		"in-process engine = yqlib.NewStreamEvaluator().EvaluateFiles / NewAllAtOnceEvaluator().EvaluateFiles with default YAML preferences, as cmd/ wires them; stdin cases are given a real file there",
